@@ -642,6 +642,15 @@ impl GC {
 //@BODY file=gc.rs fn=destroy impl=GC sig="pub fn destroy(&mut self)" rules="R4"
     }
 
+    /// O03.drop  `impl Drop for GC` (real text of `drop`): dropping a collector releases everything it still manages;
+    /// the permission to do so is the owner's (nobody else may refer to a managed object when its collector dies)
+    pub fn drop_impl(&mut self)
+        requires gc_wf(*old(self)), forall|k: int| 0 <= k < old(self).objects@.len() ==> may_free(#[trigger] old(self).objects@[k]),
+        ensures final(self).objects@.len() == 0,
+    {
+//@BODY file=gc.rs fn=drop impl=GC sig="fn drop(&mut self)" rules="R4"
+    }
+
     /// O03.run  C03 itself: a collection releases ONLY managed objects that are NOT reachable from the roots (the
     /// caller's permission covers nothing else, and `free` demands it), and every managed object that IS reachable
     /// from a root - directly, or through any chain of managed arrays, however nested, shared or cyclic - is still
